@@ -1236,8 +1236,8 @@ class EqSimplifyMacro(Macro):
             else:
                 raise VeriTException("eq_simplify", "rhs doesn't obey eq_simplify rule")
         elif lhs.is_not():
-            if not lhs.arg.is_equals() or lhs.arg.lhs == lhs.arg.rhs:
-                raise VeriTException("eq_simplify", "lhs should be an inequality.")
+            if not lhs.arg.is_equals() or lhs.arg.lhs != lhs.arg.rhs:
+                raise VeriTException("eq_simplify", "lhs should be of the form ~(t = t).")
             if rhs == false:
                 return Thm(arg)
             else:
